@@ -80,3 +80,21 @@ Example C08_total_is_sum_of_strings_nonvacuous :
   bu_iter TotalStringsProofs.ex_G 3 0 = bsum (ProductProofs.words_le [0; 1] (Nat.pow 2 3)) (fun xs => W TotalStringsProofs.ex_G 3 0 xs).
 Proof. exact TotalStringsProofs.total_strings_instance_thm. Qed.
 Print Assumptions C08_total_is_sum_of_strings_nonvacuous.
+
+(* Expectation semiring, Kleene-iterate level: the naive evaluation of the grammar lifted to pairs <p, r> (every rule
+   <w, w * #terminals of its body>) yields, at every height, the pair <total weight, weight-weighted total yield length>
+   of the original grammar -- as a sum over derivation trees and as a sum over all strings of  weight(x) * |x|. *)
+From GV.proofs Require ExpectTotalProofs.
+Theorem C08_expectation_iterate : forall (S : SR) (G : grammar S) (h X : nat),
+  bu_iter (ExpectTotalProofs.glift S G) h X
+  = (bu_iter G h X, bsum (trees G h X) (fun t => smul (tweight t) (nat_s (length (tyield t))))) /\
+  (forall (V : list nat) (L : nat), NoDup V -> TotalStringsProofs.yields_within S G h X V L ->
+     bu_iter (ExpectTotalProofs.glift S G) h X
+     = (bsum (ProductProofs.words_le V L) (fun xs => W G h X xs),
+        bsum (ProductProofs.words_le V L) (fun xs => smul (W G h X xs) (nat_s (length xs))))).
+Proof.
+  intros S G h X. split.
+  - exact (ExpectTotalProofs.expectation_iterate S G h X).
+  - intros V L HV Hy. exact (ExpectTotalProofs.expectation_iterate_strings S G V h X L HV Hy).
+Qed.
+Print Assumptions C08_expectation_iterate.
